@@ -6,6 +6,7 @@ RULE = ("seeded random programs with conditional auxiliaries at depth 1-3 of the
         "generated ticks; auxiliaries that complete immediately, after k ticks, or never; the aux clause before / between / after "
         "the main frame's go clauses; transitions that leave the main frame from above and from the main frame itself; stop "
         "bids; conditional auxiliaries guarded by update / change conditions with an entry guard that opens later, or completing at once (start-tick model); distinct = distinct program text; non-trivial = a conditional aux was activated and stayed running at least one tick")
+RULE = __import__("vf.core", fromlist=["rule_add"]).rule_add(RULE, 'also one conditional aux shared by sibling frames with an entry guard that opens later')
 META = {"engine": "A floscript", "technique": "suspension automaton over the recorded trace + differential check against the "
                                                "reference interpreter",
         "level_text": "While a conditional aux is observed running, every action of the frames below its main frame is an alarm unless the "
